@@ -30,11 +30,16 @@ func selftest(r *evid.Run) {
 		{"MC_Pipe", "MC_Pipe_asbuilt_leak.cfg", "NoStuck"},
 		{"MC_Pipe", "MC_Pipe_asbuilt_nil.cfg", ""},
 		{"MC_Pipe", "MC_Pipe_asbuilt_feeder.cfg", ""}, // NoStuck or NilMeansComplete, whichever TLC meets first
-		{"MC_Pipe", "MC_Pipe_live_asbuilt.cfg", ""}, // Termination/NoLeak under fairness
+		{"MC_Pipe", "MC_Pipe_live_asbuilt.cfg", ""},   // Termination/NoLeak under fairness
 		{"MC_Cli", "MC_C16_asbuilt.cfg", "TruthfulExit"},
 		{"MC_PS", "MC_PS_asbuilt.cfg", "SplitAgreement"},
 		{"MC_PS", "MC_PS_mixed.cfg", "ParseAgreement"},
 		{"MC_Opt", "MC_Opt_beforefix_violates.cfg", ""}, // FamiliesAgree or OptionsMeanWhatTheySay, whichever TLC meets first
+		{"MC_Io", "MC_C14_asbuilt_retry.cfg", "ReaderErrReturned"},
+		{"MC_Session", "MC_Session_asbuilt_PooledBuffer.cfg", "CallsAreIndependent"},
+		{"MC_Session", "MC_Session_asbuilt_SharedGrower.cfg", "CallsAreIndependent"},
+		{"MC_Session", "MC_Session_asbuilt_PooledParser.cfg", "CallsAreIndependent"},
+		{"MC_Session", "MC_Session_asbuilt_CallerSlice.cfg", "CallsAreIndependent"},
 	}
 	for _, a := range asbuilt {
 		res, err := tlcrun.Run(tlcrun.Opts{SpecDir: specDir, Module: a.module, Cfg: a.cfg, Timeout: 5 * time.Minute}, nil)
